@@ -1,1 +1,5 @@
-/- C06 — property theorems (stub: the slice is not built yet). -/
+import GB.C06.Spec
+/- C06 — property theorems (being built). -/
+open GB GB.C06
+
+theorem C06_placeholder : SvcState.init.routes [] = none := rfl
